@@ -18,6 +18,11 @@ import sys
 def main():
     K, sig, logfile = int(sys.argv[1]), sys.argv[2], sys.argv[3]
     args = sys.argv[5:] if sys.argv[4] == "--" else sys.argv[4:]
+    if os.environ.get("VF_MP_START"):
+        # the start method of worker processes is the platform's / the application's choice (spawn on macOS, Windows, with CUDA)
+        import multiprocessing
+
+        multiprocessing.set_start_method(os.environ["VF_MP_START"], force=True)
     from pydrobert.speech import command_line as cl
 
     fn = cl.signals_to_torch_feat_dir
